@@ -173,4 +173,126 @@ theorem mcr_key (n e p : Nat) (he : e < n) (hp : p < n) (hep : e ≠ p) (S : PSe
       have hz' : (PRow.mul n (Zq e) g).z e = false := by simp [Zq, hz]
       exact hcl.eqv _ _ (hcl.mul _ _ hB (step _ hg' hz')) (zz_cancel n e g)
 
+/-! ### 2. a one-qubit gate commutes with every operation that does not touch its qubit -/
+
+theorem img_comm (n : Nat) (f g : PRow → PRow) (hf : IsAut n f) (hg : IsAut n g) (h : ∀ a, f (g a) = g (f a)) (S : PSet) :
+    img n f (img n g S) = img n g (img n f S) := by
+  rw [img_img n f g hf, img_img n g f hg]
+  exact img_congr n _ _ h S
+
+theorem measPost_comm (n q e : Nat) (he : e < n) (hqe : e ≠ q) (t : L1) (ht : t.Fix) (haut : IsAut n (lift q t)) (o : Bool) (S : PSet) :
+    measPost n e o (img n (lift q t) S) = img n (lift q t) (measPost n e o S) := by
+  have hφ : GMap n (lift q t) := gmap_lift_of n q t ht haut
+  unfold measPost
+  rw [cl_img n _ hφ]
+  apply cl_congr
+  intro b
+  constructor
+  · rintro (hb | ⟨⟨a, ha, eb⟩, hbx⟩)
+    · exact ⟨Zq e o, Or.inl (EqOn.refl _ _), (lift_Zq_ne n q e hqe t ht o).trans hb⟩
+    · refine ⟨a, Or.inr ⟨ha, ?_⟩, eb⟩
+      rw [← lift_x_ne q e hqe t a, (eb.1 e he).1]; exact hbx
+  · rintro ⟨a, (ha | ⟨ha, hax⟩), eb⟩
+    · exact Or.inl (((lift_Zq_ne n q e hqe t ht o).symm.trans (haut.congr _ _ ha)).trans eb)
+    · refine Or.inr ⟨⟨a, ha, eb⟩, ?_⟩
+      rw [← (eb.1 e he).1, lift_x_ne q e hqe t a]; exact hax
+
+theorem psi_lift_comm (q e p : Nat) (hqe : e ≠ q) (hqp : p ≠ q) (t : L1) (a : PRow) :
+    PRow.xg e (PRow.xg p (lift q t a)) = lift q t (PRow.xg e (PRow.xg p a)) := by
+  rw [xg_eq_lift, xg_eq_lift, xg_eq_lift, xg_eq_lift, lift_lift_comm p q hqp, lift_lift_comm e q hqe]
+
+theorem mcrPost_comm (n q e p : Nat) (he : e < n) (hp : p < n) (hqe : e ≠ q) (hqp : p ≠ q) (t : L1) (ht : t.Fix)
+    (haut : IsAut n (lift q t)) (o : Bool) (S : PSet) :
+    mcrPost n e p o (img n (lift q t) S) = img n (lift q t) (mcrPost n e p o S) := by
+  unfold mcrPost
+  rw [measPost_comm n q e he hqe t ht haut]
+  unfold corr
+  cases o
+  · rfl
+  · simp only [if_true]
+    exact img_comm n _ _ ((gmap_xg n e he).comp (gmap_xg n p hp)).aut haut (fun a => psi_lift_comm q e p hqe hqp t a) _
+
+/-- one forward step commutes with a local one-qubit map on an untouched qubit -/
+theorem gstep_comm (np ne q : Nat) (t : L1) (ht : t.Fix) (haut : IsAut (np + ne) (lift q t))
+    (op : SOp) (hwf : op.WF np ne) (hnt : op.touches np q = false) (o : Bool) (S : PSet) :
+    gstep np ne op o (img (np + ne) (lift q t) S) = img (np + ne) (lift q t) (gstep np ne op o S) := by
+  cases op with
+  | wrap gs q' =>
+    have hq' : q' < np + ne := hwf
+    have hne : q' ≠ q := by simpa [SOp.touches] using hnt
+    show img _ (actW q' gs) (img _ (lift q t) S) = img _ (lift q t) (img _ (actW q' gs) S)
+    refine img_comm _ _ _ (actW_isAut _ q' hq' gs) haut (fun a => ?_) S
+    rw [actW_eq_lift, actW_eq_lift, lift_lift_comm q' q hne]
+  | emit e p =>
+    obtain ⟨he, hp⟩ : e < ne ∧ p < np := hwf
+    have hne : np + e ≠ q ∧ p ≠ q := by simpa [SOp.touches] using hnt
+    show img _ (PRow.cnot (np + e) p) (img _ (lift q t) S) = img _ (lift q t) (img _ (PRow.cnot (np + e) p) S)
+    refine img_comm _ _ _ (isAut_cnot _ _ _ (by omega) (by omega) (by omega)) haut (fun a => ?_) S
+    exact (lift_cnot_comm q (np + e) p (Ne.symm hne.1) (Ne.symm hne.2) t a).symm
+  | cnotEE c tg =>
+    obtain ⟨hc, htg, hct⟩ : c < ne ∧ tg < ne ∧ c ≠ tg := hwf
+    have hne : np + c ≠ q ∧ np + tg ≠ q := by simpa [SOp.touches] using hnt
+    show img _ (PRow.cnot (np + c) (np + tg)) (img _ (lift q t) S) = img _ (lift q t) (img _ (PRow.cnot (np + c) (np + tg)) S)
+    refine img_comm _ _ _ (isAut_cnot _ _ _ (by omega) (by omega) (by omega)) haut (fun a => ?_) S
+    exact (lift_cnot_comm q (np + c) (np + tg) (Ne.symm hne.1) (Ne.symm hne.2) t a).symm
+  | mcr e p =>
+    obtain ⟨he, hp⟩ : e < ne ∧ p < np := hwf
+    have hne : np + e ≠ q ∧ p ≠ q := by simpa [SOp.touches] using hnt
+    exact mcrPost_comm (np + ne) q (np + e) p (by omega) (by omega) hne.1 hne.2 t ht haut o S
+
+theorem gpre_comm (np ne q : Nat) (t : L1) (op : SOp) (hnt : op.touches np q = false) (S : PSet)
+    (h : gpre np ne op (img (np + ne) (lift q t) S)) : gpre np ne op S := by
+  obtain ⟨hwf, hm⟩ := h
+  refine ⟨hwf, ?_⟩
+  cases op with
+  | mcr e p =>
+    obtain ⟨he, _⟩ : e < ne ∧ p < np := hwf
+    have hne : np + e ≠ q ∧ p ≠ q := by simpa [SOp.touches] using hnt
+    obtain ⟨b, ⟨a, ha, eb⟩, hbx⟩ := hm
+    refine ⟨a, ha, ?_⟩
+    rw [← lift_x_ne q (np + e) hne.1 t a, (eb.1 (np + e) (by omega)).1]; exact hbx
+  | wrap _ _ => trivial
+  | emit _ _ => trivial
+  | cnotEE _ _ => trivial
+
+theorem mcrPost_closed (n e p : Nat) (he : e < n) (hp : p < n) (o : Bool) (S : PSet) : Closed n (mcrPost n e p o S) := by
+  unfold mcrPost corr
+  cases o
+  · exact cl_closed n _
+  · exact img_closed n _ ((gmap_xg n e he).comp (gmap_xg n p hp)) _ (cl_closed n _)
+
+/-- a forward step maps signed groups to signed groups -/
+theorem gstep_closed (np ne : Nat) (op : SOp) (hwf : op.WF np ne) (o : Bool) (S : PSet) (hS : Closed (np + ne) S) :
+    Closed (np + ne) (gstep np ne op o S) := by
+  cases op with
+  | wrap gs q => exact img_closed _ _ (gmap_actW _ q hwf gs) S hS
+  | emit e p =>
+    obtain ⟨he, hp⟩ : e < ne ∧ p < np := hwf
+    exact img_closed _ _ (gmap_cnot _ _ _ (by omega) (by omega) (by omega)) S hS
+  | cnotEE c t =>
+    obtain ⟨hc, ht, hct⟩ : c < ne ∧ t < ne ∧ c ≠ t := hwf
+    exact img_closed _ _ (gmap_cnot _ _ _ (by omega) (by omega) (by omega)) S hS
+  | mcr e p =>
+    obtain ⟨he, hp⟩ : e < ne ∧ p < np := hwf
+    exact mcrPost_closed _ _ _ (by omega) (by omega) o S
+
+/-- **moving a one-qubit gate to its place on the wire**: if the operations of `pre` do not touch qubit `q`, then inserting after them
+    something (`Y` instead of `X`) that absorbs a local map on `q` is as good as applying that map first -/
+theorem ggen_insert (np ne q : Nat) (T0 : PSet) (t : L1) (ht : t.Fix) (haut : IsAut (np + ne) (lift q t))
+    (X Y : List SOp)
+    (hXY : ∀ S, Closed (np + ne) S → GGen np ne T0 X (img (np + ne) (lift q t) S) → GGen np ne T0 Y S)
+    (pre : List SOp) (hpre : ∀ op, op ∈ pre → op.touches np q = false) :
+    ∀ S, Closed (np + ne) S → GGen np ne T0 (pre ++ X) (img (np + ne) (lift q t) S) → GGen np ne T0 (pre ++ Y) S := by
+  induction pre with
+  | nil => exact hXY
+  | cons op rest ih =>
+    intro S hS h
+    obtain ⟨h1, h2⟩ : gpre np ne op (img (np + ne) (lift q t) S) ∧
+        ∀ o, GGen np ne T0 (rest ++ X) (gstep np ne op o (img (np + ne) (lift q t) S)) := h
+    have hnt := hpre op List.mem_cons_self
+    refine ⟨gpre_comm np ne q t op hnt S h1, fun o => ?_⟩
+    apply ih (fun o' ho' => hpre o' (List.mem_cons_of_mem _ ho')) _ (gstep_closed np ne op h1.1 o S hS)
+    rw [← gstep_comm np ne q t ht haut op h1.1 hnt o S]
+    exact h2 o
+
 end Graphiq.Solver
